@@ -142,7 +142,7 @@ func cmdFirewall(args []string) {
 	col := trace.Install()
 	const self = "a"
 	names := []string{"b", "ab", "aXb", "A", "axx", "xxb"}
-	services := []string{"a", "b", "ab", "aXb", "A", "axx", "xxb"}
+	services := []string{"a", "b", "ab", wireSvc("aXb"), "A", "axx", "xxb"}
 	n, err := e1.NewNode(self, e1.Opts{})
 	if err != nil {
 		res.Inconclusive = append(res.Inconclusive, err.Error())
@@ -228,6 +228,9 @@ func cmdFirewall(args []string) {
 	distinct := map[string]bool{}
 	ran := 0
 	for vi, v := range vecs {
+		// on the wire and at the sockets the service name the spec writes "aXb" is "a\x00b": service names are 8 raw
+		// bytes, an inner zero byte is part of the name (rules see it: /a.*b/ and /.*/ match it, "a" and "ab" do not)
+		v.Pkt.FromService, v.Pkt.ToService = wireSvc(v.Pkt.FromService), wireSvc(v.Pkt.ToService)
 		res.Evaluations++
 		fns, perr, panicked := parseRules(v.Rules)
 		rulesJSON, _ := json.Marshal(v.Rules)
@@ -338,20 +341,20 @@ func cmdFirewall(args []string) {
 						um.FromNode == v.Pkt.FromNode && um.ToNode == v.Pkt.ToNode && um.FromService == v.Pkt.FromService && um.ToService == v.Pkt.ToService {
 						obs = noticeName
 					} else {
-						obs, detail = "bad-notice", fmt.Sprintf("%+v %+v", d, um)
+						obs, detail = "bad-notice", printable(fmt.Sprintf("%+v %+v", d, um))
 					}
 				} else if d.FromHash == peer.Hash(v.Pkt.FromNode) && d.ToHash == peer.Hash(v.Pkt.ToNode) && d.FromService == v.Pkt.FromService &&
 					d.ToService == v.Pkt.ToService && string(d.Payload) == string(payload) && ttlIn > 0 && d.TTL == ttlIn-1 && v.Pkt.ToNode != self {
 					obs = "pass"
 				} else {
-					obs, detail = "bad-forward", fmt.Sprintf("%+v", d)
+					obs, detail = "bad-forward", printable(fmt.Sprintf("%+v", d))
 				}
 			case len(dataFrames) == 0 && len(newReads) == 1 && nu == 0:
 				rd := newReads[0]
 				if v.Pkt.ToNode == self && rd.svc == v.Pkt.ToService && rd.payload == string(payload) && rd.from == v.Pkt.FromNode+":"+v.Pkt.FromService {
 					obs = "pass"
 				} else {
-					obs, detail = "bad-delivery", fmt.Sprintf("%+v", rd)
+					obs, detail = "bad-delivery", printable(fmt.Sprintf("%+v", rd))
 				}
 			case len(dataFrames) == 0 && len(newReads) == 0 && nu == 1:
 				// a notice dispatched locally (the packet claims this node as its source)
@@ -368,7 +371,7 @@ func cmdFirewall(args []string) {
 					nt.n.ToNode == v.Pkt.ToNode && nt.n.ToService == v.Pkt.ToService && nt.n.FromService == v.Pkt.FromService {
 					obs = noticeName
 				} else {
-					obs, detail = "bad-notice", fmt.Sprintf("%+v (%d notifications)", nt, extraNotes)
+					obs, detail = "bad-notice", printable(fmt.Sprintf("%+v (%d notifications)", nt, extraNotes))
 				}
 			default:
 				obs, detail = "multiple", fmt.Sprintf("frames=%d reads=%d publishes=%d", len(dataFrames), len(newReads), nu)
@@ -392,7 +395,7 @@ func cmdFirewall(args []string) {
 					pos += ", no hops left"
 				}
 				res.violate(fmt.Sprintf("C12:%s-instead-of-%s", obs, expect),
-					fmt.Sprintf("rules %s packet %+v at %s: spec says %s (decision %s), node did %s %s", rulesJSON, v.Pkt, pos, expect, v.Expect.Decision, obs, detail),
+					printable(fmt.Sprintf("rules %s packet %+v at %s: spec says %s (decision %s), node did %s %s", rulesJSON, v.Pkt, pos, expect, v.Expect.Decision, obs, detail)),
 					map[string]any{"vector": v, "mode": mode})
 			}
 			if len(res.Samples) < 6 && (vi%97 == 0 || obs != expect) {
@@ -416,4 +419,27 @@ func boolInt(b bool) int {
 	}
 
 	return 0
+}
+
+// wireSvc gives the concrete service name for the spec's name: "aXb" is the three bytes a, 0, b.
+func wireSvc(s string) string {
+	if s == "aXb" {
+		return "a\x00b"
+	}
+
+	return s
+}
+
+// printable replaces control bytes (the zero byte inside a service name) by a visible escape.
+func printable(s string) string {
+	var b strings.Builder
+	for _, r := range s {
+		if r < 0x20 || r == 0x7f {
+			fmt.Fprintf(&b, "\\x%02x", r)
+		} else {
+			b.WriteRune(r)
+		}
+	}
+
+	return b.String()
 }
